@@ -15,6 +15,18 @@ AUTHOR = "independent sub-agent given only the property text and a scratch workt
 def main():
     spec = json.load(open(sys.argv[1]))
     names = sys.argv[2:] or sorted(spec)
+    # a change counts as caught only if the check is quiet on the unchanged tree: run each property's quick check on
+    # /repo first - with the environment sweep - and refuse to judge changes of a property whose check alarms there
+    def clean(pid):
+        p = subprocess.run(["./check", pid], cwd=VERIF, capture_output=True, text=True)
+        return pid, p.returncode, [l for l in p.stdout.splitlines() if l.startswith("VIOLATION")][:2]
+    noisy = set()
+    with ThreadPoolExecutor(4) as ex:
+        for pid, rc, lines in ex.map(clean, sorted({n[:3] for n in names})):
+            if rc != 0:
+                noisy.add(pid)
+                print(f"CLEAN-TREE-ALARM {pid} rc={rc} {lines}", flush=True)
+    names = [n for n in names if n[:3] not in noisy]
 
     def one(n):
         what, needs = spec[n]
